@@ -574,8 +574,81 @@ func (b *builder) region(depth int) (int, int) {
 	return v, v
 }
 
+// slowRegion appends to adj a two-entry region hanging off the node entry: a forward chain
+// a_1..a_k, a second path b_1..b_m from the entry that joins the chain near its far end, and
+// retreating edges a_j -> a_i (mostly short hops). Every a_i is then dominated by the entry
+// alone, but an iterative algorithm learns that at a_k first and has to carry it backwards
+// along the retreating edges, one step per sweep: the graphs on which "sweep until nothing
+// changes" needs many sweeps, and on which a bound on the number of sweeps, or a work-list of
+// the nodes that "can still change", has to be exactly right. It returns the far end a_k.
+func slowRegion(t *rapid.T, adj *[][]int, entry int) int {
+	k := rapid.IntRange(3, 10).Draw(t, "chain")
+	m := rapid.IntRange(1, 4).Draw(t, "bypass")
+	base := len(*adj)
+	for i := 0; i < k+m; i++ {
+		*adj = append(*adj, []int{})
+	}
+	a := func(i int) int { return base + i - 1 }     // a_1..a_k
+	b := func(j int) int { return base + k + j - 1 } // b_1..b_m
+	edge := func(u, v int) { (*adj)[u] = append((*adj)[u], v) }
+	edge(entry, a(1))
+	for i := 1; i < k; i++ {
+		edge(a(i), a(i+1))
+	}
+	edge(entry, b(1))
+	for j := 1; j < m; j++ {
+		edge(b(j), b(j+1))
+	}
+	edge(b(m), a(rapid.IntRange((k+1)/2, k).Draw(t, "joinAt")))
+	for r := rapid.IntRange(1, k).Draw(t, "retreating"); r > 0; r-- {
+		j := rapid.IntRange(2, k).Draw(t, "from")
+		i := j - rapid.SampledFrom([]int{1, 1, 2, 3}).Draw(t, "hop")
+		if rapid.IntRange(0, 4).Draw(t, "longHop") == 0 {
+			i = rapid.IntRange(1, j-1).Draw(t, "to")
+		}
+		if i < 1 {
+			i = 1
+		}
+		edge(a(j), a(i))
+	}
+	if rapid.Bool().Draw(t, "backIntoBypass") {
+		edge(a(rapid.IntRange(1, k).Draw(t, "bfrom")), b(rapid.IntRange(1, m).Draw(t, "bto")))
+	}
+	return a(k)
+}
+
 func drawGraph(t *rapid.T) (adj [][]int, root int) {
-	switch rapid.IntRange(0, 4).Draw(t, "family") {
+	switch rapid.IntRange(0, 5).Draw(t, "family") {
+	case 5: // one to three slow-convergence regions in sequence, out-lists shuffled, ids relabelled
+		adj = [][]int{{}}
+		at := 0
+		for r := rapid.IntRange(1, 3).Draw(t, "regions"); r > 0; r-- {
+			end := slowRegion(t, &adj, at)
+			at = end
+			if rapid.Bool().Draw(t, "hangOffMiddle") {
+				at = rapid.IntRange(1, len(adj)-1).Draw(t, "hangAt")
+			}
+		}
+		n := len(adj)
+		relabel := make([]int, n)
+		for i := range relabel {
+			relabel[i] = i
+		}
+		if rapid.Bool().Draw(t, "relabel") {
+			relabel = rapid.Permutation(relabel).Draw(t, "labels")
+		}
+		out := make([][]int, n)
+		for u := range adj {
+			l := make([]int, len(adj[u]))
+			for i, v := range adj[u] {
+				l[i] = relabel[v]
+			}
+			if len(l) > 1 && rapid.Bool().Draw(t, "shuffleOut") {
+				l = rapid.Permutation(l).Draw(t, "outOrder")
+			}
+			out[relabel[u]] = l
+		}
+		return out, relabel[0]
 	case 4: // sparse random graphs of 20..40 nodes with out-degree about 2 and self-loops: long
 		// dominator chains through irreducible regions, where the iterative algorithm needs
 		// several passes and the order of the predecessor lists matters
